@@ -32,6 +32,7 @@ import (
 	"strconv"
 	"strings"
 
+	"evylang.dev/evy/pkg/evaluator"
 	evyparser "evylang.dev/evy/pkg/parser"
 )
 
@@ -76,6 +77,9 @@ type repoImporter struct {
 	cache map[string]*types.Package
 	infos map[string]*types.Info
 	files map[string][]*ast.File
+	reqs  map[string]string
+	lastInfo  *types.Info
+	lastFiles []*ast.File
 }
 
 const evyModule = "evylang.dev/evy"
@@ -98,21 +102,95 @@ func (ri *repoImporter) Import(path string) (*types.Package, error) {
 			return p, nil
 		}
 	}
-	// third-party (kong, txtar: only used by main.go's CLI plumbing): an empty
-	// package; the type checker reports errors for its members, which are
-	// tolerated (see load) — operands whose type is unknown are reported as
-	// sites of kind "untyped-range" and must be classified like any other.
+	// third-party (kong, txtar: only used by main.go's CLI plumbing): type-check
+	// from the module cache at the version required by the repo's go.mod
+	// (errors tolerated). If that is not possible: an empty package — operands
+	// whose type is then unknown are reported as sites of kind "untyped-range"
+	// and must be classified like any other (so the check fails closed).
+	if dir := ri.moduleDir(path); dir != "" {
+		ri.cache[path] = types.NewPackage(path, filepath.Base(path)) // cycle guard
+		if p, err := ri.loadDir(dir, path, false); err == nil && p != nil {
+			ri.cache[path] = p
+			return p, nil
+		}
+	}
 	p := types.NewPackage(path, filepath.Base(path))
 	p.MarkComplete()
 	ri.cache[path] = p
 	return p, nil
 }
 
+// moduleDir maps an import path to its directory in the module cache using
+// the require lines of the repo's go.mod.
+func (ri *repoImporter) moduleDir(path string) string {
+	if ri.reqs == nil {
+		ri.reqs = map[string]string{}
+		b, _ := os.ReadFile(filepath.Join(ri.root, "go.mod"))
+		for _, line := range strings.Split(string(b), "\n") {
+			f := strings.Fields(strings.TrimPrefix(strings.TrimSpace(line), "require "))
+			if len(f) >= 2 && strings.Contains(f[0], ".") && strings.HasPrefix(f[1], "v") {
+				ri.reqs[f[0]] = f[1]
+			}
+		}
+	}
+	best := ""
+	for m := range ri.reqs {
+		if (path == m || strings.HasPrefix(path, m+"/")) && len(m) > len(best) {
+			best = m
+		}
+	}
+	if best == "" {
+		return ""
+	}
+	esc := func(s string) string {
+		var b strings.Builder
+		for _, r := range s {
+			if r >= 'A' && r <= 'Z' {
+				b.WriteByte('!')
+				r += 'a' - 'A'
+			}
+			b.WriteRune(r)
+		}
+		return b.String()
+	}
+	caches := []string{os.Getenv("GOMODCACHE")}
+	if gp := os.Getenv("GOPATH"); gp != "" {
+		caches = append(caches, filepath.Join(gp, "pkg", "mod"))
+	}
+	if h, err := os.UserHomeDir(); err == nil {
+		caches = append(caches, filepath.Join(h, "go", "pkg", "mod"))
+	}
+	for _, c := range caches {
+		if c == "" {
+			continue
+		}
+		d := filepath.Join(c, esc(best)+"@"+ri.reqs[best], strings.TrimPrefix(strings.TrimPrefix(path, best), "/"))
+		if st, err := os.Stat(d); err == nil && st.IsDir() {
+			return d
+		}
+	}
+	return ""
+}
+
 func (ri *repoImporter) load(rel string) (*types.Package, error) {
 	if p, ok := ri.cache["evy:"+rel]; ok {
 		return p, nil
 	}
-	dir := filepath.Join(ri.root, rel)
+	path := evyModule
+	if rel != "." {
+		path += "/" + rel
+	}
+	pkg, err := ri.loadDir(filepath.Join(ri.root, rel), path, true)
+	if err != nil {
+		return nil, err
+	}
+	ri.cache["evy:"+rel] = pkg
+	ri.infos[rel] = ri.lastInfo
+	ri.files[rel] = ri.lastFiles
+	return pkg, nil
+}
+
+func (ri *repoImporter) loadDir(dir, path string, keep bool) (*types.Package, error) {
 	ents, err := os.ReadDir(dir)
 	if err != nil {
 		return nil, err
@@ -139,15 +217,11 @@ func (ri *repoImporter) load(rel string) (*types.Package, error) {
 		return nil, fmt.Errorf("no Go files in %s", dir)
 	}
 	info := &types.Info{Types: map[ast.Expr]types.TypeAndValue{}, Uses: map[*ast.Ident]types.Object{}, Selections: map[*ast.SelectorExpr]*types.Selection{}}
-	conf := types.Config{Importer: ri, Error: func(error) {}, FakeImportC: true}
-	path := evyModule
-	if rel != "." {
-		path += "/" + rel
-	}
+	conf := types.Config{Importer: ri, Error: func(error) {}, FakeImportC: true, IgnoreFuncBodies: !keep}
 	pkg, _ := conf.Check(path, ri.fset, files, info)
-	ri.cache["evy:"+rel] = pkg
-	ri.infos[rel] = info
-	ri.files[rel] = files
+	if keep {
+		ri.lastInfo, ri.lastFiles = info, files
+	}
 	return pkg, nil
 }
 
@@ -347,6 +421,24 @@ func genMapSites(dir string) error {
 		}
 		first = false
 		fmt.Fprintf(&b, "  (%s, %s)  (* %s *)", coqStr(s.ID), coqStr(s.Expr), s.File)
+	}
+	b.WriteString("\n].\n\n")
+	// parseProgram / NewEvaluator copy builtins.Globals into the scope under the
+	// entry's Name field, not under its map key: the table lets Coq check that
+	// the Names are pairwise distinct (else the copy would be order dependent).
+	b.WriteString("(* (map key, Name field) of evaluator.BuiltinDecls().Globals *)\n")
+	b.WriteString("Definition builtin_globals : list (string * string) := [\n")
+	gl := evaluator.BuiltinDecls().Globals
+	gk := make([]string, 0, len(gl))
+	for k := range gl {
+		gk = append(gk, k)
+	}
+	sort.Strings(gk)
+	for i, k := range gk {
+		if i > 0 {
+			b.WriteString(";\n")
+		}
+		fmt.Fprintf(&b, "  (%s, %s)", coqStr(k), coqStr(gl[k].Name))
 	}
 	b.WriteString("\n].\n")
 	return os.WriteFile(filepath.Join(dir, "MapSites.v"), []byte(b.String()), 0o644)
